@@ -179,7 +179,7 @@ def bigfile(tier):
     return fn
 
 
-def harnesses(tier):
+def _harnesses(tier):
     out = ["-sf targets outside the root", "overlapping -sf selections", "symlinks",
            "XML escaping of special names (lxml; exercised only in the real replays)", "user ignore patterns (C12)"]
     return [
@@ -198,3 +198,8 @@ def harnesses(tier):
                 what="create -sf with 6 selections (file, nested file, folder, two files, file+folder, empty folder), optional child history at d",
                 bounds={"selections": 6}, outside=out),
     ]
+
+
+def harnesses(tier):
+    from . import tour
+    return list(_harnesses(tier)) + tour.harnesses(tier, "C02")
